@@ -20,7 +20,7 @@ MANIFEST = {
             "arrangement/element-index/system-operation operands are judged on template + register fields only (partial; counted in the evidence). "
             "Classes without a hand model are covered by the monitor sweep only (testing).",
 }
-MODS = ["AsmjitVerif.Props.C02", "AsmjitVerif.Props.C02E2E", "AsmjitVerif.Props.C02Valid", "AsmjitVerif.Props.C02Mov", "AsmjitVerif.Props.C02Bits", "AsmjitVerif.Props.C02Wide", "AsmjitVerif.Props.C02Refuse", "AsmjitVerif.Props.C02MemOff", "AsmjitVerif.Props.C02Logical", "AsmjitVerif.Props.C02LdSt", "AsmjitVerif.Props.C02Pair", "AsmjitVerif.Props.C02Rel", "AsmjitVerif.Props.C02Sys", "AsmjitVerif.Props.C02Refuse2", "AsmjitVerif.Props.C02Refuse3", "AsmjitVerif.Props.C02RR"]
+MODS = ["AsmjitVerif.Props.C02", "AsmjitVerif.Props.C02E2E", "AsmjitVerif.Props.C02Valid", "AsmjitVerif.Props.C02Mov", "AsmjitVerif.Props.C02Bits", "AsmjitVerif.Props.C02Wide", "AsmjitVerif.Props.C02Refuse", "AsmjitVerif.Props.C02MemOff", "AsmjitVerif.Props.C02Logical", "AsmjitVerif.Props.C02LdSt", "AsmjitVerif.Props.C02Pair", "AsmjitVerif.Props.C02Rel", "AsmjitVerif.Props.C02Sys", "AsmjitVerif.Props.C02Refuse2", "AsmjitVerif.Props.C02Refuse3", "AsmjitVerif.Props.C02RR", "AsmjitVerif.Props.C02BfAlias"]
 M64 = (1 << 64) - 1
 
 GP_IDS_OK = [0, 1, 7, 8, 15, 16, 29, 30]
